@@ -174,7 +174,13 @@ def run(run):
     run.check("R2", okl, "constructor validates every signature", key="SignerAuthorization.__init__|validate-all", where=sa_ini.loc(),
               message="SignerAuthorization.__init__ does not validate every given signature")
     ef = {f.text() for f in F.exit_facts(sa_ini, SA)}
-    run.check("R2", "type(self._signer_version) == SignerVersion" in ef and f"type({sa_ini.params[2]}) == list" in ef,
+    # the stored field and the parameter it was stored from are the same value
+    sv_stores = [n for n in A.own_nodes(sa_ini) if isinstance(n, ast.Assign) and any(norm(t) == "self._signer_version" for t in n.targets)]
+    sv_texts = {"type(self._signer_version) == SignerVersion"}
+    if sv_stores and all(isinstance(n.value, ast.Name) and n.value.id == sa_ini.params[1] for n in sv_stores) \
+            and not any(isinstance(n, ast.Name) and n.id == sa_ini.params[1] and isinstance(n.ctx, ast.Store) for n in A.own_nodes(sa_ini)):
+        sv_texts.add(f"type({sa_ini.params[1]}) == SignerVersion")
+    run.check("R2", bool(sv_texts & ef) and f"type({sa_ini.params[2]}) == list" in ef,
               "constructor requires a SignerVersion and a list", key="SignerAuthorization.__init__|types", where=sa_ini.loc(),
               message="SignerAuthorization.__init__ type checks changed")
     ad = P.method(SA, "add_signature")
@@ -187,7 +193,7 @@ def run(run):
     gj = A.cfg(fj, SA)
     for r in [n for n in A.own_nodes(fj) if isinstance(n, ast.Return)]:
         for rn in gj.nodes_of(r):
-            facts = {f.text() for f in F.local(fj, SA, rn)}
+            facts = {f.text() for f in F.local(fj, SA, rn)} | set(F.expanded(fj, SA, rn, PV, stop=("signer_auth_map",)))
             run.check("R2", "type(signer_auth_map) == dict" in facts and "signer_auth_map['version'] == SignerAuthorization.VERSION" in facts,
                       "file must be a dict with the supported version", key="SignerAuthorization.from_jsonfile|guards", where=fj.loc(r),
                       message="from_jsonfile accepts a document that is not a version-1 object")
@@ -283,7 +289,8 @@ def run(run):
              "operator-provided key on secp256k1, DER-encoded; the eth path verifies the dongle's signature over the same digest.")
     td = P.method(SA, "to_dict")
     d = [n for n in A.own_nodes(td) if isinstance(n, ast.Dict)][0]
-    got = {k.value: norm(v) for k, v in zip(d.keys, d.values)}
+    from .common import prop_expand
+    got = {k.value: prop_expand(run, PV, SA, norm(v)) for k, v in zip(d.keys, d.values)}
     run.check("R4", got == {"version": "self.VERSION", "signer": "self._signer_version.to_dict()", "signatures": "self._signatures[:]"},
               "authorization to_dict", key="SignerAuthorization.to_dict|shape", where=td.loc(), message=f"SignerAuthorization.to_dict is {got}")
     tv = P.method(SV, "to_dict")
